@@ -79,10 +79,21 @@ def reindex_histories(ctx):
                     os.remove(f)
 
 
+def time_fields_text(msg):
+    fam = ic.wire_time_family(int.from_bytes(msg[10:12], 'little'))
+    p = msg[24:]
+    if fam in ('details', 'input') and len(p) >= 20:
+        return '%s: measurement_time=%s source=%d p1_time=%s' % (fam, ic._wire_timestamp(p, 0), p[8], ic._wire_timestamp(p, 12))
+    if fam == 'p1':
+        return 'p1: p1_time=%s' % ic._wire_timestamp(p, 0)
+    return 'class without P1 time'
+
+
 def judge(ctx, replay0, results, data, nts, outs):
     scan = parse_pairs(outs[-1])
     oversized = [x for x in scan if x[1] > replay0['M']]
     stradd = None
+    want_times = {}
     for nt, mo in zip(nts, outs[:-1]):
         res = results[nt]
         replay = dict(replay0, num_threads=nt)
@@ -120,8 +131,18 @@ def judge(ctx, replay0, results, data, nts, outs):
                 ctx.violation('C08/entry-not-crc-valid', 'entry at %d is not a CRC-valid message' % o, replay)
             if t != int.from_bytes(msg[10:12], 'little'):
                 ctx.violation('C08/type-wrong', 'entry at %d has type %d' % (o, t), replay)
-            if tm != ic.expected_time(msg):
-                ctx.violation('C08/time-wrong', 'entry at %d has time %s, message says %s' % (o, tm, ic.expected_time(msg)), replay)
+            if o not in want_times:             # the same for every worker count: computed once per message
+                want_times[o] = (ic.expected_time(msg), ic.wire_expected_time(msg))
+            et, wt = want_times[o]
+            if tm != et:
+                ctx.violation('C08/time-wrong', 'entry at %d has time %s, message says %s' % (o, tm, et), replay)
+            # the same column against the time read from the message's wire bytes by the rule of its class family (P1 time
+            # first / MeasurementDetails block kept / MeasurementDetails block of an input / no time): independent of
+            # get_p1_time(), which the indexer itself calls
+            ctx.count('time_entries_%s' % (ic.wire_time_family(t) or 'untimed'))
+            if tm != wt:
+                ctx.violation('C08/time-wrong', 'entry at %d (type %d, %s) has time %s, the message\'s bytes say %s' %
+                              (o, t, time_fields_text(msg), tm, wt), replay)
     ctx.count('entries', len(scan))
 
 
@@ -159,6 +180,22 @@ def run(ctx, budget, findings_tokens=True):
     files.append((b''.join(bt), 'boundary-times', 80 * 1024, 16 * 1024))
     for m in bt:
         files.append((b'\x01\x02' + m + gen.frame(9, b'z', 77), 'boundary-time', 80 * 1024, 16 * 1024))
+    # every way a class defines its P1 time: messages of EVERY registered class with the time fields written into the payload
+    # bytes - MeasurementDetails classes (kept / disregarded p1_time) x every measurement_time_source x measurement_time
+    # unset/set x p1_time unset / same second / another second; classes with a leading p1_time; classes without a time
+    stale = ic.registered_types_missing_from_wire_table()
+    if stale:
+        raise fv.InfraError('index_common.WIRE_TIME_FAMILY does not agree with the registered classes about which carry a time: %s' % stale)
+    fam = ic.time_family_messages(rng, per_class=None)
+    ctx.count('time_family_messages', len(fam))
+    rng.shuffle(fam)
+    step = 60
+    for k in range(0, len(fam), step):
+        files.append((b''.join(m for _, m in fam[k:k + step]), 'time-families', 80 * 1024, 16 * 1024))
+    for _ in range(max(2, budget // 6)):          # a few of them across small blocks, with junk in between
+        pick = rng.sample(fam, 5)
+        files.append((b''.join(m + bytes(rng.randrange(256) for _ in range(rng.choice([0, 1, 6]))) for _, m in pick),
+                      'time-families-small', 128, 256))
     # every shift of one message pair across a block boundary (odd and even offsets)
     R, M = 64, 64
     base, _ = gen.small_file(rng, 3, M, 'VUW')
@@ -204,11 +241,16 @@ def check(ctx):
                        'truncated, sync fragments, false headers incl. huge lengths, junk, truncated tail whose CRC matches the truncated '
                        'bytes, crafted straddling nested candidate) with random padding so that messages and sync words fall on every '
                        'side of block boundaries, with _READ_SIZE_BYTES/_MAX_FE_MSG_SIZE_BYTES rebound to %s (and the real 80 KiB/16 KiB on '
-                       'larger files), x worker counts from 1..16; non-trivial = file >= 24 bytes; distinct = distinct (R, M, workers, file)'
+                       'larger files), x worker counts from 1..16; messages of every registered class with the time fields written into the '
+                       'payload bytes (MeasurementDetails kept/disregarded x every measurement_time_source x measurement_time unset/set x '
+                       'p1_time unset/same second/another second; leading p1_time; no time), the time column judged against the '
+                       'wire bytes by the class family\'s rule; non-trivial = file >= 24 bytes; distinct = distinct (R, M, workers, file)'
                        % CONFIGS)
     ctx.assumptions += ['multiprocessing.Pool.starmap returns results in argument order (modelled as List.map)',
                         'file reads (seek/read) return the bytes of the file; np.frombuffer/np.where find exactly the 2-byte sync words',
-                        'P1 time / type of an entry are checked against the class\'s own unpack of the message bytes (not modelled in Lean)']
+                        'P1 time / type of an entry are checked against the class\'s own unpack of the message bytes and against the time '
+                        'fields read from the wire bytes by the per-type table index_common.WIRE_TIME_FAMILY (not modelled in Lean); '
+                        'whether a payload is decodable at all is the class\'s unpack()']
     ctx.prove(MODULES)
     try:
         run(ctx, 60 if ctx.thorough else 14)
